@@ -15,7 +15,7 @@ META = {
     "tables": ["GenGroups", "GenEnums"],
     "files": ["asyncfix/connection.py", "asyncfix/codec.py"],
     "rule": "streams of 1-4 valid frames (session and application types, 60 B - 2 kB) x all 1-cut partitions and sampled 2-cut partitions of small streams, "
-            "random multi-cut partitions, 1-byte reads, optional marker-free garbage between frames; non-trivial = at least one cut strictly inside a frame; "
+            "random multi-cut partitions, 1-byte reads, optional marker-free garbage (incl. proper prefixes of the marker and field look-alikes) before, between and after frames, plus - on every run whatever the seed - small streams with junk in front of every frame under every single cut; non-trivial = at least one cut strictly inside a frame; "
             "distinct by (stream, cut offsets)",
     "trusted_base": ["asyncio.StreamReader.read(4096) returns what was fed since the last read (reads <= 4096 bytes)"],
     "assumptions": ["TCP is an in-order byte pipe split into arbitrary reads"],
